@@ -1027,3 +1027,397 @@ Proof.
   destruct (Z.eqb_spec (sval 2 (getf f_goodRASFlag (decode_struct (layout_of Mgh) true b))) 0); [contradiction|].
   now rewrite class_bytes_roundtrip.
 Qed.
+
+(* ================================================================== check batteries on header BYTES *)
+Definition vals_fit (f : field) (n : nat) (x : list Z) : Prop := length x = n /\ Forall (in_range (fwidth f)) x.
+
+Lemma in_range_forallb w x : Forall (in_range w) x -> forallb (fun v => (0 <=? v) && (v <? pow256 w)) x = true.
+Proof. intros H. apply forallb_forall. rewrite Forall_forall in H. intros v Hv. specialize (H v Hv). unfold in_range in H. lia. Qed.
+
+Lemma hdr_fits_setf L i x : forall h, hdr_fits L h = true ->
+  (forall f, find_field i L = Some f -> vals_fit f (fcount f) x) -> hdr_fits L (setf i x h) = true.
+Proof.
+  induction L as [|g L IH]; intros [|[k vs] h] H Hx; simpl in *; try discriminate; [reflexivity|].
+  apply andb_prop in H as [H H4]. apply andb_prop in H as [H H3]. apply andb_prop in H as [H1 H2].
+  apply Z.eqb_eq in H1. subst k. destruct (Z.eqb_spec (fid g) i) as [E|NE].
+  - destruct (Hx g eq_refl) as [Lx Rx]. cbn [hdr_fits]. rewrite Z.eqb_refl, Lx, Nat.eqb_refl, in_range_forallb, H4 by assumption.
+    reflexivity.
+  - cbn [hdr_fits]. rewrite Z.eqb_refl, H2, H3. cbn [andb]. apply IH; assumption.
+Qed.
+
+Definition slot_count (s : slot) (f : field) : nat :=
+  match s with SSpat => 3%nat | SQfac => 1%nat | _ => fcount f end.
+Definition slot_fit (c : hclass) (s : slot) (x : list Z) : Prop :=
+  forall f, find_field (field_of_slot s) (layout_of c) = Some f -> vals_fit f (slot_count s f) x.
+
+(* table fact: the fields the checks of each battery repair have the width / count the repairs assume,
+   and the constant written by the offset repair fits its field *)
+Definition repair_shape_ok (c : hclass) (k : ck_id) (f : field) : bool :=
+  match k with
+  | CkSizeof | CkVersion => Nat.eqb (fwidth f) 4 && Nat.eqb (fcount f) 1
+  | CkBitpix => Nat.eqb (fwidth f) 2 && Nat.eqb (fcount f) 1
+  | CkPixdims | CkQfac => (Nat.eqb (fwidth f) 4 || Nat.eqb (fwidth f) 8) && Nat.leb 4 (fcount f)
+  | CkOffset => Nat.eqb (fcount f) 1 && (0 <=? off_of_int c (single_vox_offset_of c))
+                && (off_of_int c (single_vox_offset_of c) <? pow256 (fwidth f))
+  | CkQform | CkSform => Nat.eqb (fcount f) 1
+  | CkEol => Nat.eqb (fwidth f) 1 && Nat.eqb (fcount f) 4
+  | _ => true
+  end.
+Definition battery_shapes (c : hclass) : bool :=
+  forallb (fun k => match ck_slot k with
+                    | Some s => match find_field (field_of_slot s) (layout_of c) with
+                                | Some f => repair_shape_ok c k f
+                                | None => false
+                                end
+                    | None => true
+                    end) (battery_of c).
+Lemma battery_shapes_all c : battery_shapes c = true.
+Proof. destruct c; vm_compute; reflexivity. Qed.
+
+Lemma f_one_in_range w : (w = 4 \/ w = 8)%nat -> in_range w (f_one w).
+Proof. intros [->| ->]; unfold in_range; split; vm_compute; first [discriminate|reflexivity]. Qed.
+Lemma f_abs_in_range w v : (w = 4 \/ w = 8)%nat -> in_range w (f_abs w v).
+Proof.
+  intros [->| ->]; unfold in_range, f_abs.
+  - change (sign_bit 4) with 2147483648. change (pow256 4) with 4294967296.
+    pose proof (Z.mod_pos_bound v 2147483648). lia.
+  - change (sign_bit 8) with 9223372036854775808. change (pow256 8) with 18446744073709551616.
+    pose proof (Z.mod_pos_bound v 9223372036854775808). lia.
+Qed.
+Lemma in_range_of_signed w z : in_range w (of_signed w z).
+Proof. unfold in_range. apply of_signed_range. Qed.
+Lemma in_range_small w v : (0 < w)%nat -> 0 <= v < 256 -> in_range w v.
+Proof.
+  intros Hw Hv. unfold in_range. destruct w as [|w]; [lia|]. rewrite pow256_S. pose proof (pow256_pos w). nia.
+Qed.
+
+(* every value a repair writes fits the field it is written to *)
+Lemma fixv_fits e k s x : In k (battery_of (e_cls e)) -> ck_slot k = Some s ->
+  slot_fit (e_cls e) s x -> slot_fit (e_cls e) s (ck_fixv e k x).
+Proof.
+  intros Hin Hs Hx f Hf. specialize (Hx f Hf).
+  pose proof (battery_shapes_all (e_cls e)) as B. unfold battery_shapes in B. rewrite forallb_forall in B.
+  specialize (B k Hin). rewrite Hs, Hf in B.
+  unfold ck_fixv. destruct (negb (ck_bad e k x)); [exact Hx|].
+  destruct k; cbn in Hs; inversion Hs; subst s; cbn [slot_count] in *; cbn [repair_shape_ok] in B; try exact Hx.
+  - apply andb_prop in B as [B1 B2]. apply Nat.eqb_eq in B1, B2. split; [now rewrite B2|].
+    rewrite B1. constructor; [apply in_range_of_signed|constructor].
+  - destruct (lookup _ _); [|exact Hx]. apply andb_prop in B as [B1 B2]. apply Nat.eqb_eq in B1, B2.
+    split; [now rewrite B2|]. rewrite B1. constructor; [apply in_range_of_signed|constructor].
+  - apply andb_prop in B as [B1 _].
+    assert (W : (fwidth f = 4 \/ fwidth f = 8)%nat) by (apply orb_prop in B1 as [E|E]; apply Nat.eqb_eq in E; auto).
+    assert (PW : pix_w (e_cls e) = fwidth f) by (unfold pix_w, fwidth_of; cbn [field_of_slot] in Hf; now rewrite Hf).
+    rewrite PW. destruct Hx as [Lx Rx]. cbv zeta.
+    assert (R1 : Forall (in_range (fwidth f)) (map (fun v => if f_is_zero (fwidth f) v then f_one (fwidth f) else v) x)).
+    { clear Lx. induction Rx as [|v x Hv Hxs IH]; cbn [map]; constructor; [|exact IH].
+      destruct (f_is_zero _ v); [now apply f_one_in_range|exact Hv]. }
+    destruct (any _ x); split; rewrite ?map_length; try exact Lx; try exact R1.
+    clear - W. induction (map _ x) as [|v l IH]; cbn [map]; constructor; [now apply f_abs_in_range|exact IH].
+  - apply andb_prop in B as [B1 _].
+    assert (W : (fwidth f = 4 \/ fwidth f = 8)%nat) by (apply orb_prop in B1 as [E|E]; apply Nat.eqb_eq in E; auto).
+    assert (PW : pix_w (e_cls e) = fwidth f) by (unfold pix_w, fwidth_of; cbn [field_of_slot] in Hf; now rewrite Hf).
+    rewrite PW. split; [reflexivity|]. constructor; [now apply f_one_in_range|constructor].
+  - destruct (off_too_low e x); [|exact Hx].
+    apply andb_prop in B as [B B3]. apply andb_prop in B as [B1 B2]. apply Nat.eqb_eq in B1.
+    split; [now rewrite B1|]. constructor; [unfold in_range; lia|constructor].
+  - apply Nat.eqb_eq in B. split; [now rewrite B|]. constructor; [|constructor].
+    unfold in_range. pose proof (pow256_pos (fwidth f)). lia.
+  - apply Nat.eqb_eq in B. split; [now rewrite B|]. constructor; [|constructor].
+    unfold in_range. pose proof (pow256_pos (fwidth f)). lia.
+  - apply andb_prop in B as [B1 B2]. apply Nat.eqb_eq in B1, B2. split; [now rewrite B2|].
+    unfold eol_good. repeat (apply Forall_cons; [apply in_range_small; rewrite ?B1; lia|]). apply Forall_nil.
+  - apply andb_prop in B as [B1 B2]. apply Nat.eqb_eq in B1, B2. split; [now rewrite B2|].
+    constructor; [apply in_range_small; rewrite ?B1; lia|constructor].
+Qed.
+
+Lemma Forall_firstn {A} (P : A -> Prop) n l : Forall P l -> Forall P (firstn n l).
+Proof. intros H. apply Forall_forall. intros x Hx. rewrite Forall_forall in H. apply H.
+  rewrite <- (firstn_skipn n l). apply in_or_app. now left. Qed.
+Lemma Forall_skipn {A} (P : A -> Prop) n l : Forall P l -> Forall P (skipn n l).
+Proof. intros H. apply Forall_forall. intros x Hx. rewrite Forall_forall in H. apply H.
+  rewrite <- (firstn_skipn n l). apply in_or_app. now right. Qed.
+
+Lemma pix_count_ge4 c f : find_field f_pixdim (layout_of c) = Some f -> (4 <= fcount f)%nat.
+Proof. intros H. pose proof (pixdim_count c) as P. rewrite H in P. now apply Nat.leb_le. Qed.
+
+Lemma view_slot_fit c h s : hdr_fits (layout_of c) h = true -> slot_fit c s (get_slot s (view_slots h)).
+Proof.
+  intros Hfit f Hf.
+  assert (G : forall i g, find_field i (layout_of c) = Some g -> vals_fit g (fcount g) (getf i h)).
+  { intros i g Hg. split; [now apply (hdr_fits_len _ _ _ _ Hfit Hg)|now apply (hdr_fits_range _ _ _ _ Hfit Hg)]. }
+  destruct s; cbn [get_slot view_slots s_sizeof s_bitpix s_spat s_qfac s_offset s_qform s_sform s_eol s_version
+                   field_of_slot slot_count] in *; try (now apply G).
+  - destruct (G _ _ Hf) as [Lp Rp]. pose proof (pix_count_ge4 c f Hf). split.
+    + rewrite firstn_length, skipn_length. lia.
+    + now apply Forall_firstn, Forall_skipn.
+  - destruct (G _ _ Hf) as [Lp Rp]. pose proof (pix_count_ge4 c f Hf). split.
+    + rewrite firstn_length. lia.
+    + now apply Forall_firstn.
+Qed.
+
+Lemma fixs_slot_fit c h s : hdr_fits (layout_of c) h = true ->
+  slot_fit c s (get_slot s (fixs (view_env c h) (battery_of c) (view_slots h))).
+Proof.
+  intros Hfit. destruct (get_fixs_cases (view_env c h) s (battery_of c) (view_slots h) (batteries_wf c))
+    as [E|(k & Hk & Sk & E)]; rewrite E.
+  - now apply view_slot_fit.
+  - apply (fixv_fits (view_env c h) k s); [exact Hk|exact Sk|now apply view_slot_fit].
+Qed.
+
+Lemma writeback_fits c v h : hdr_fits (layout_of c) h = true ->
+  (forall s, slot_fit c s (get_slot s v)) -> hdr_fits (layout_of c) (writeback v h) = true.
+Proof.
+  intros Hfit Hv. unfold writeback.
+  repeat (apply hdr_fits_setf; [|first
+    [ exact (Hv SSizeof) | exact (Hv SBitpix) | exact (Hv SOffset) | exact (Hv SQform) | exact (Hv SSform)
+    | exact (Hv SEol) | exact (Hv SVersion) | idtac ]]); try exact Hfit.
+  (* pixdim = qfac ++ spatial ++ the rest of the old value *)
+  intros f Hf. destruct (Hv SQfac f Hf) as [Lq Rq]. destruct (Hv SSpat f Hf) as [Ls Rs].
+  cbn [get_slot slot_count] in *. pose proof (pix_count_ge4 c f Hf) as H4.
+  pose proof (hdr_fits_len _ _ _ _ Hfit Hf) as Lp. pose proof (hdr_fits_range _ _ _ _ Hfit Hf) as Rp.
+  split.
+  - rewrite !app_length, skipn_length, Lq, Ls, Lp. lia.
+  - apply Forall_app. split; [exact Rq|]. apply Forall_app. split; [exact Rs|now apply Forall_skipn].
+Qed.
+
+Lemma check_fix_fits c h h1 r1 : hdr_fits (layout_of c) h = true ->
+  check_hdr c true h = Some (h1, r1) -> hdr_fits (layout_of c) h1 = true.
+Proof.
+  intros Hfit H. unfold check_hdr in H.
+  destruct (run_checks (view_env c h) true (battery_of c) (view_slots h)) as [[v1 rs]|] eqn:R; [|discriminate].
+  inversion H; subst. clear H.
+  assert (V : v1 = fixs (view_env c h) (battery_of c) (view_slots h)).
+  { rewrite run_spec in R by apply batteries_wf. destruct (noraise _ _ _); [|discriminate]. now inversion R. }
+  apply writeback_fits; [assumption|]. intros s. rewrite V. now apply fixs_slot_fit.
+Qed.
+
+(* ---- byte level: check_bytes = encode o check_hdr o decode *)
+Lemma bytes_fix_idempotent c be b b1 r1 : bytes_ok b -> zlen b = size_of c ->
+  check_bytes c true be b = Some (b1, r1) ->
+  zlen b1 = size_of c /\ exists r2, check_bytes c true be b1 = Some (b1, r2).
+Proof.
+  intros Hb Hl H. unfold check_bytes in H.
+  set (h := decode_struct (layout_of c) be b) in *.
+  assert (Hfit : hdr_fits (layout_of c) h = true) by (apply decode_fits; [assumption|rewrite layouts_size; lia]).
+  destruct (check_hdr c true h) as [[h1 rs]|] eqn:C; [|discriminate]. inversion H; subst. clear H.
+  pose proof (check_fix_fits c h h1 r1 Hfit C) as Hfit1.
+  destruct (class_decode_encode c be h1 Hfit1) as [D L]. split; [exact L|].
+  destruct (hdr_fix_idempotent c h h1 r1 Hfit C) as [r2 C2].
+  exists r2. unfold check_bytes. now rewrite D, C2.
+Qed.
+
+Lemma bytes_fix_noop_on_clean c be b b0 r0 : bytes_ok b -> zlen b = size_of c ->
+  check_bytes c false be b = Some (b0, r0) ->
+  b0 = b /\ (Forall (fun r => level r = 0) r0 -> exists r1, check_bytes c true be b = Some (b, r1)).
+Proof.
+  intros Hb Hl H. unfold check_bytes in *.
+  set (h := decode_struct (layout_of c) be b) in *.
+  destruct (check_hdr c false h) as [[h0 rs]|] eqn:C; [|discriminate]. inversion H; subst. clear H.
+  pose proof (hdr_check_only_pure c h h0 r0 C) as ->.
+  assert (E : encode_struct (layout_of c) be h = b) by (unfold h; now apply class_bytes_roundtrip).
+  split; [exact E|]. intros Hz. destruct (hdr_fix_noop_on_clean c h h r0 C Hz) as [r1 C1].
+  exists r1. now rewrite C1, E.
+Qed.
+
+Lemma bytes_fix_clears c be b b1 r1 : bytes_ok b -> zlen b = size_of c ->
+  check_bytes c true be b = Some (b1, r1) ->
+  exists r2, check_bytes c false be b1 = Some (b1, r2)
+    /\ Forall (fun r => level r = 0 \/ unfixable (rmsg r) = true) r2.
+Proof.
+  intros Hb Hl H. unfold check_bytes in H.
+  set (h := decode_struct (layout_of c) be b) in *.
+  assert (Hfit : hdr_fits (layout_of c) h = true) by (apply decode_fits; [assumption|rewrite layouts_size; lia]).
+  destruct (check_hdr c true h) as [[h1 rs]|] eqn:C; [|discriminate]. inversion H; subst. clear H.
+  pose proof (check_fix_fits c h h1 r1 Hfit C) as Hfit1.
+  destruct (class_decode_encode c be h1 Hfit1) as [D L].
+  destruct (hdr_fix_clears c h h1 r1 Hfit C) as (r2 & C2 & F).
+  exists r2. split; [|exact F]. unfold check_bytes. now rewrite D, C2.
+Qed.
+
+(* ================================================================== conversions: shape and zooms *)
+(* shapes that involve none of the FreeSurfer conventions of NIfTI-1 (large vectors, ico7) *)
+Definition plain_shape (shape : list Z) : Prop :=
+  shape <> [] /\ zlen shape <= 7 /\ Forall (fun x => 0 <= x <= 32767) shape /\ prefix3 shape 27307 1 6 = false.
+
+Lemma dim_w_family c : analyze_family c = true -> (dim_w c = 2 \/ dim_w c = 8)%nat.
+Proof. destruct c; try discriminate; intros _; vm_compute; auto. Qed.
+Lemma dim_w_nifti1 c : is_nifti1 c = true -> dim_w c = 2%nat.
+Proof. destruct c; try discriminate; intros _; reflexivity. Qed.
+
+Lemma prefix3_false_ge shape a b c : Forall (fun x => 0 <= x <= 32767) shape -> (a < 0 \/ 32767 < a) ->
+  prefix3 shape a b c = false.
+Proof.
+  intros H Ha. destruct shape as [|x [|y [|z r]]]; try reflexivity. cbn [prefix3].
+  inversion H as [|? ? Hx _]; subst. destruct (Z.eqb_spec x a); [lia|reflexivity].
+Qed.
+
+Lemma set_shape_is_plain c shape h : plain_shape shape -> set_shape c shape h = set_shape_plain c shape h.
+Proof.
+  intros (_ & _ & Hr & _). unfold set_shape. destruct (is_nifti1 c) eqn:N; [|reflexivity].
+  rewrite (prefix3_false_ge shape 163842 1 1 Hr) by lia.
+  destruct shape as [|x [|y [|z r]]]; try reflexivity.
+  - destruct y; try reflexivity. destruct p; reflexivity.
+  - destruct y as [|p|p]; try reflexivity. destruct p; try reflexivity.
+    destruct z as [|q|q]; try reflexivity. destruct q; try reflexivity.
+    rewrite (dim_w_nifti1 c N). change (pow256 2 / 2 - 1) with 32767.
+    inversion Hr as [|? ? Hx _]; subst. destruct (Z.ltb_spec 32767 x); [lia|reflexivity].
+Qed.
+
+Lemma to_signed_id w v : (w = 2 \/ w = 8)%nat -> 0 <= v <= 32767 -> to_signed w v = v.
+Proof.
+  intros [->| ->] Hv; unfold to_signed.
+  - change (pow256 2 / 2) with 32768. destruct (Z.ltb_spec v 32768); lia.
+  - change (pow256 8 / 2) with 9223372036854775808. destruct (Z.ltb_spec v 9223372036854775808); lia.
+Qed.
+
+Lemma fits_small w x : (w = 2 \/ w = 8)%nat -> 0 <= x <= 32767 -> - (pow256 w / 2) <= x < pow256 w / 2.
+Proof. intros [->| ->] H; [change (pow256 2 / 2) with 32768|change (pow256 8 / 2) with 9223372036854775808]; lia. Qed.
+
+Lemma map_to_of_signed w shape : (w = 2 \/ w = 8)%nat -> Forall (fun x => 0 <= x <= 32767) shape ->
+  map (to_signed w) (map (of_signed w) shape) = shape.
+Proof.
+  intros Hw H. induction H as [|x l Hx Hl IH]; [reflexivity|]. cbn [map]. rewrite IH. f_equal.
+  apply to_of_signed; [destruct Hw; lia|now apply fits_small].
+Qed.
+
+Lemma map_to_signed_ones w n : (w = 2 \/ w = 8)%nat -> map (to_signed w) (repeat 1 n) = repeat 1 n.
+Proof. intros Hw. induction n; [reflexivity|]. cbn [repeat map]. rewrite IHn. f_equal. apply to_signed_id; [assumption|lia]. Qed.
+
+Lemma skipn_repeat {A} (x : A) n m : skipn n (repeat x m) = repeat x (m - n).
+Proof. revert m; induction n as [|n IH]; intros m; [now rewrite Nat.sub_0_r|]. destruct m; [reflexivity|]. cbn. apply IH. Qed.
+
+(* the dim field written by set_data_shape reads back as the shape *)
+Lemma get_shape_of_dims c h shape : analyze_family c = true -> plain_shape shape ->
+  getf f_dim h = zlen shape :: map (of_signed (dim_w c)) shape ++ skipn (length shape) (repeat 1 7) ->
+  get_shape c h = COk shape.
+Proof.
+  intros Hf (Hne & Hlen & Hr & H27) Hd. pose proof (dim_w_family c Hf) as Hw.
+  assert (Hn : 0 < zlen shape) by (destruct shape; [congruence|unfold zlen; cbn [length]; lia]).
+  unfold get_shape. rewrite Hd. cbn [map hd]. rewrite map_app, (map_to_of_signed _ _ Hw Hr).
+  replace (skipn (length shape) (repeat 1 7)) with (repeat 1 (7 - length shape)).
+  2:{ symmetry. apply skipn_repeat. }
+  rewrite (map_to_signed_ones _ _ Hw). rewrite (to_signed_id _ _ Hw) by lia.
+  destruct (Z.eqb_spec (zlen shape) 0); [lia|].
+  assert (S1 : py_slice1 (zlen shape + 1) (zlen shape :: shape ++ repeat 1 (7 - length shape)) = shape).
+  { unfold py_slice1. replace (zlen (zlen shape :: shape ++ repeat 1 (7 - length shape))) with 8
+      by (unfold zlen in *; cbn [length]; rewrite app_length, repeat_length; lia).
+    destruct (Z.ltb_spec (zlen shape + 1) 0); [lia|]. rewrite Z.min_l by lia.
+    destruct (Z.leb_spec (zlen shape + 1) 1); [lia|].
+    replace (zlen shape + 1 - 1) with (zlen shape) by lia.
+    change (drop 1 (zlen shape :: shape ++ repeat 1 (7 - length shape))) with (shape ++ repeat 1 (7 - length shape)).
+    apply take_app_exact. }
+  rewrite S1. destruct (is_nifti1 c); [|reflexivity].
+  rewrite (prefix3_false_ge shape (-1) 1 1 Hr) by lia. now rewrite H27.
+Qed.
+
+Lemma family_has_dim c : analyze_family c = true -> memZ f_dim (map fid (layout_of c)) = true
+  /\ memZ f_pixdim (map fid (layout_of c)) = true.
+Proof. destruct c; try discriminate; intros _; vm_compute; split; reflexivity. Qed.
+
+Lemma obj_keys_after_mapping src dst h :
+  map fst (clean_after_mapping dst (apply_mapping (layout_of src) (layout_of dst) h (default_hdr dst)))
+  = map fid (layout_of dst).
+Proof.
+  unfold clean_after_mapping. destruct (is_nifti dst); rewrite ?setf_keys, apply_mapping_keys; apply default_keys.
+Qed.
+
+(* dst.from_header(src, check=False) keeps the shape (shapes without FreeSurfer conventions) *)
+Lemma convert_preserves_shape src dst h h' shape : analyze_family dst = true ->
+  from_header src dst false h = COk h' -> get_shape src h = COk shape -> plain_shape shape ->
+  get_shape dst h' = COk shape.
+Proof.
+  intros Hfam H Hs Hp. unfold from_header in H.
+  destruct (negb (dim0_in_scope src h)); [discriminate|].
+  set (obj0 := clean_after_mapping dst (apply_mapping (layout_of src) (layout_of dst) h (default_hdr dst))) in *.
+  destruct (set_dtype src dst (sval 2 (getf f_datatype h)) obj0) as [obj1|] eqn:E1; [|discriminate].
+  rewrite Hs in H. rewrite (set_shape_is_plain dst shape obj1 Hp) in H.
+  unfold set_shape_plain in H. destruct (negb (all (fits_signed (dim_w dst)) shape) || (7 <? zlen shape)); [discriminate|].
+  cbv zeta in H.
+  match type of H with
+  | match set_zooms ?c ?w ?z ?o with _ => _ end = _ => destruct (set_zooms c w z o) as [obj3|] eqn:E3; [|discriminate]
+  end.
+  inversion H; subst h'. clear H.
+  assert (K1 : map fst obj1 = map fid (layout_of dst)).
+  { unfold set_dtype in E1. destruct (lookup _ (dtcodes_of src)); [|discriminate].
+    destruct (lookup _ (dtcodes_of dst)); [|discriminate]. destruct (_ =? 0); [discriminate|].
+    inversion E1; subst. rewrite !setf_keys. apply obj_keys_after_mapping. }
+  assert (Hd : hasf f_dim obj1 = true) by (rewrite hasf_keys, K1; apply (family_has_dim dst Hfam)).
+  apply get_shape_of_dims; [assumption|assumption|].
+  unfold set_zooms in E3. repeat (destruct (_ : bool) in E3; try discriminate). inversion E3; subst obj3. clear E3.
+  rewrite getf_setf_other by ids_neq. rewrite getf_setf_other by ids_neq.
+  rewrite getf_setf_same by assumption.
+  cbn [put_from]. now rewrite map_length.
+Qed.
+
+Lemma zlen_nn {A} (l : list A) : 0 <= zlen l.
+Proof. unfold zlen. lia. Qed.
+
+Lemma py_slice1_cons n x (zs rest : list Z) : zlen zs = n -> 0 < n ->
+  py_slice1 (n + 1) (x :: zs ++ rest) = zs.
+Proof.
+  intros Hl Hn. unfold py_slice1.
+  assert (L : zlen (x :: zs ++ rest) = 1 + n + zlen rest) by (unfold zlen in *; cbn [length]; rewrite app_length; lia).
+  rewrite L. pose proof (zlen_nn rest).
+  destruct (Z.ltb_spec (n + 1) 0); [lia|]. rewrite Z.min_l by lia. destruct (Z.leb_spec (n + 1) 1); [lia|].
+  replace (n + 1 - 1) with n by lia. change (drop 1 (x :: zs ++ rest)) with (zs ++ rest).
+  rewrite <- Hl. apply take_app_exact.
+Qed.
+
+(* ... and the zooms, cast to the destination's float width *)
+Lemma convert_preserves_zooms src dst h h' shape : analyze_family src = true -> analyze_family dst = true ->
+  hdr_fits (layout_of src) h = true ->
+  from_header src dst false h = COk h' -> get_shape src h = COk shape -> plain_shape shape ->
+  get_zooms dst h' = map (f_cast (pix_w src) (pix_w dst)) (get_zooms src h).
+Proof.
+  intros Hfs Hfam Hfit H Hs Hp. pose proof Hp as (Hne & Hlen & Hr & H27). unfold from_header in H.
+  destruct (negb (dim0_in_scope src h)); [discriminate|].
+  set (obj0 := clean_after_mapping dst (apply_mapping (layout_of src) (layout_of dst) h (default_hdr dst))) in *.
+  destruct (set_dtype src dst (sval 2 (getf f_datatype h)) obj0) as [obj1|] eqn:E1; [|discriminate].
+  rewrite Hs in H. rewrite (set_shape_is_plain dst shape obj1 Hp) in H.
+  unfold set_shape_plain in H. destruct (negb (all (fits_signed (dim_w dst)) shape) || (7 <? zlen shape)); [discriminate|].
+  cbv zeta in H.
+  match type of H with
+  | match set_zooms ?c ?w ?z ?o with _ => _ end = _ => destruct (set_zooms c w z o) as [obj3|] eqn:E3; [|discriminate]
+  end.
+  inversion H; subst h'. clear H.
+  assert (K0 : map fst obj0 = map fid (layout_of dst)) by apply obj_keys_after_mapping.
+  assert (G1 : forall i, i <> f_bitpix -> i <> f_datatype -> getf i obj1 = getf i obj0 /\ hasf i obj1 = hasf i obj0).
+  { intros i N1 N2. unfold set_dtype in E1. destruct (lookup _ (dtcodes_of src)); [|discriminate].
+    destruct (lookup _ (dtcodes_of dst)); [|discriminate]. destruct (_ =? 0); [discriminate|].
+    inversion E1; subst. rewrite !getf_setf_other, !hasf_setf by assumption. now split. }
+  destruct (family_has_dim dst Hfam) as [Md Mp]. destruct (family_has_dim src Hfs) as [_ Mps].
+  assert (Hd : hasf f_dim obj1 = true) by (rewrite (proj2 (G1 f_dim ltac:(ids_neq) ltac:(ids_neq))), hasf_keys, K0; exact Md).
+  assert (Hpx : hasf f_pixdim obj1 = true) by (rewrite (proj2 (G1 f_pixdim ltac:(ids_neq) ltac:(ids_neq))), hasf_keys, K0; exact Mp).
+  (* the source's pixdim was copied: at least 4 items *)
+  assert (Pne : exists x0 rest, getf f_pixdim obj1 = x0 :: rest).
+  { rewrite (proj1 (G1 f_pixdim ltac:(ids_neq) ltac:(ids_neq))).
+    destruct (memZ_find _ _ Mps) as [fs Es]. destruct (memZ_find _ _ Mp) as [fd Ed].
+    assert (E0 : getf f_pixdim obj0 = map (cast_field fs fd) (getf f_pixdim h)).
+    { unfold obj0, clean_after_mapping. destruct (is_nifti dst); rewrite ?getf_setf_other by ids_neq;
+        (rewrite (apply_mapping_get _ _ f_pixdim fs fd Es Ed);
+         [rewrite hasf_keys, (hdr_fits_keys _ _ Hfit), Mps; reflexivity
+         |rewrite (hdr_fits_keys _ _ Hfit); apply (wf_offsets _ (layouts_wf src))
+         |rewrite hasf_keys, default_keys; exact Mp]). }
+    rewrite E0. pose proof (hdr_fits_len _ _ _ _ Hfit Es) as L. pose proof (pix_count_ge4 src fs Es).
+    destruct (getf f_pixdim h) as [|a l]; [simpl in L; lia|]. cbn [map]. eauto. }
+  destruct Pne as (x0 & rest & Ep).
+  unfold set_zooms in E3.
+  set (dims := put_from 1 (map (of_signed (dim_w dst)) shape) (zlen shape :: repeat 1 7)) in *.
+  assert (Dm : getf f_dim (setf f_pixdim (firstn (S (length shape)) (getf f_pixdim obj1) ++
+                 map (fun _ => f_one (pix_w dst)) (skipn (S (length shape)) (getf f_pixdim obj1))) (setf f_dim dims obj1)) = dims)
+    by (rewrite getf_setf_other by ids_neq; now apply getf_setf_same).
+  rewrite Dm in E3.
+  assert (Nd : sval (dim_w dst) dims = zlen shape).
+  { unfold dims, sval. cbn [put_from hd]. apply to_signed_id; [now apply dim_w_family|]. pose proof (zlen_nn shape). lia. }
+  rewrite Nd in E3.
+  destruct (Z.eqb_spec (zlen (get_zooms src h)) (zlen shape)) as [Lz|]; [|discriminate]. cbn [negb] in E3.
+  destruct (any _ _); [discriminate|]. inversion E3; subst obj3. clear E3.
+  unfold get_zooms at 1.
+  rewrite !(getf_setf_other f_dim f_pixdim) by ids_neq. rewrite (getf_setf_same f_dim) by exact Hd. rewrite Nd.
+  assert (Hn : 0 < zlen shape) by (destruct shape; [congruence|unfold zlen; cbn [length]; lia]).
+  destruct (Z.eqb_spec (zlen shape) 0); [lia|].
+  rewrite (getf_setf_same f_pixdim) by (rewrite !hasf_setf; exact Hpx).
+  rewrite (getf_setf_same f_pixdim) by (rewrite hasf_setf; exact Hpx).
+  rewrite Ep. cbv iota. cbn [app put_from]. apply py_slice1_cons; [|exact Hn].
+  unfold zlen in *. now rewrite map_length.
+Qed.
